@@ -196,6 +196,21 @@ class Model:
                                    local_to=func.key if func else None, node=d, extern_only=not is_def)
 
     # ------------------------------------------------------------------
+    def array_fields(self):
+        """names of pointer members that are used as arrays of records somewhere in the library (subscripted, and the
+        element is a struct): `q->F->g` is `q->F[0].g` for these"""
+        af = getattr(self, "_array_fields", None)
+        if af is None:
+            af = set()
+            for f in self.funcs.values():
+                for n in walk(f.body):
+                    if n["kind"] == "ArraySubscriptExpr" and (n.get("type") or "").replace("const ", "").startswith("struct "):
+                        b = strip(kids(n)[0], casts=True)
+                        if b["kind"] == "MemberExpr" and b.get("name"):
+                            af.add(b["name"])
+            self._array_fields = af
+        return af
+
     def resolve(self, unit, name):
         """Function key for a function named `name` referenced from `unit`."""
         if name in self.static_names.get(unit, ()):
